@@ -1,6 +1,10 @@
 #!/bin/bash
 # usage: seedtest.sh <patch.diff> <prop> [<prop>...]   -- applies the seeded change to /repo, runs the checks, reverts
 patch="$1"; shift
+# no other check may run while /repo carries the seeded change (checks hold this lock shared, see ./check)
+exec 9>/verif/build/.seedlock
+flock 9
+export VERIF_IN_SEEDTEST=1
 cd /repo || exit 2
 if [ -n "$(git status --porcelain --untracked-files=no)" ]; then echo "/repo not clean"; exit 2; fi
 git apply "$patch" || { echo "patch does not apply"; exit 2; }
